@@ -75,8 +75,8 @@ SPECS = {
         ((), (), 'g0 = new_binary_mapping', ('b', 'c')),
         # for q0 in g1(1, 1, None): add_clause([-q0])
         ((('q0', 'g1(1, 1, None)'),), (), 'add_clause', ('[-q0]',)),
-        # for (q0, q1, q2, q3) in product(range(1, a), range(1, b + 1), range(1, b + 1), range(1, c + 1)): add_clause({_it = [None]; for q4 in range(1, a + 1): _it.append(F.new_binary_mapping(b, b))}[q0].forbid(q1, q2 - 1) + [-g1(q0 + 1, q2, q3), g1(q0, q1, q3)])
-        ((('(q0, q1, q2, q3)', 'product(range(1, a), range(1, b + 1), range(1, b + 1), range(1, c + 1))'),), (), 'add_clause', ('{_it = [None]; for q4 in range(1, a + 1): _it.append(F.new_binary_mapping(b, b))}[q0].forbid(q1, q2 - 1) + [-g1(q0 + 1, q2, q3), g1(q0, q1, q3)]',)),
+        # for q0 in range(1, a) for q1 in range(1, b + 1) for q2 in range(1, b + 1) for q3 in range(1, c + 1): add_clause({_it = [None]; for q4 in range(1, a + 1): _it.append(F.new_binary_mapping(b, b))}[q0].forbid(q1, q2 - 1) + [-g1(q0 + 1, q2, q3), g1(q0, q1, q3)])
+        ((('q0', 'range(1, a)'), ('q1', 'range(1, b + 1)'), ('q2', 'range(1, b + 1)'), ('q3', 'range(1, c + 1)')), (), 'add_clause', ('{_it = [None]; for q4 in range(1, a + 1): _it.append(F.new_binary_mapping(b, b))}[q0].forbid(q1, q2 - 1) + [-g1(q0 + 1, q2, q3), g1(q0, q1, q3)]',)),
         # for q0 in range(1, b + 1) for q1 in range(1, c + 1): add_clause([g1(a, q0, q1)] + g0.forbid(q0, q1 - 1))
         ((('q0', 'range(1, b + 1)'), ('q1', 'range(1, c + 1)')), (), 'add_clause', ('[g1(a, q0, q1)] + g0.forbid(q0, q1 - 1)',)),
     ],
@@ -135,8 +135,8 @@ SPECS = {
         ((), ('smart',), 'g0 = new_combinations', ('graph.order()', '2')),
         #  if not smart: g0 = new_permutations(graph.order(), 2)
         ((), ('not smart',), 'g0 = new_permutations', ('graph.order()', '2')),
-        # for q0 in graph.vertices() if (graph.order() != q0 or not plant): add_clause({if smart: for q1 in graph.neighbors(q0): if q1 < q0: append(g0(q1, q0)) else: append(-g0(q0, q1)) else: [g0(c0, q0) for c0 in graph.neighbors(q0)]})
-        ((('q0', 'graph.vertices()'),), ('(graph.order() != q0 or not plant)',), 'add_clause', ('{if smart: for q1 in graph.neighbors(q0): if q1 < q0: append(g0(q1, q0)) else: append(-g0(q0, q1)) else: [g0(c0, q0) for c0 in graph.neighbors(q0)]}',)),
+        # for q0 in graph.vertices() if (graph.order() != q0 or not plant): add_clause({if smart: [g0(c0, q0) if c0 < q0 else -g0(q0, c0) for c0 in graph.neighbors(q0)] else: [g0(c0, q0) for c0 in graph.neighbors(q0)]})
+        ((('q0', 'graph.vertices()'),), ('(graph.order() != q0 or not plant)',), 'add_clause', ('{if smart: [g0(c0, q0) if c0 < q0 else -g0(q0, c0) for c0 in graph.neighbors(q0)] else: [g0(c0, q0) for c0 in graph.neighbors(q0)]}',)),
         # for (q0, q1, q2) in combinations(graph.vertices(), 3) if smart: add_clause([-g0(q0, q2), g0(q0, q1), g0(q1, q2)])
         ((('(q0, q1, q2)', 'combinations(graph.vertices(), 3)'),), ('smart',), 'add_clause', ('[-g0(q0, q2), g0(q0, q1), g0(q1, q2)]',)),
         # for (q0, q1, q2) in combinations(graph.vertices(), 3) if smart: add_clause([-g0(q0, q1), -g0(q1, q2), g0(q0, q2)])
@@ -165,8 +165,8 @@ SPECS = {
         ((), (), 'g1 = new_sparse_mapping', ('B',)),
         # : force_complete_mapping(g1)
         ((), (), 'force_complete_mapping', ('g1',)),
-        # for q0 in D.vertices() for q1 in B.right_neighbors(q0) for q2 in product(*([c1 for c1 in B.right_neighbors(c0) if c1 != q1] for c0 in D.predecessors(q0))): add_clause([-g1(q0, q1), g0(q1)] + [-g0(c0) for c0 in _uniqify_list(q2)] + [-g1(c0, c1) for c0, c1 in zip(D.predecessors(q0), q2)])
-        ((('q0', 'D.vertices()'), ('q1', 'B.right_neighbors(q0)'), ('q2', 'product(*([c1 for c1 in B.right_neighbors(c0) if c1 != q1] for c0 in D.predecessors(q0)))')), (), 'add_clause', ('[-g1(q0, q1), g0(q1)] + [-g0(c0) for c0 in _uniqify_list(q2)] + [-g1(c0, c1) for c0, c1 in zip(D.predecessors(q0), q2)]',)),
+        # for q0 in D.vertices() for q1 in B.right_neighbors(q0) for q2 in product(*[[c1 for c1 in B.right_neighbors(c0) if c1 != q1] for c0 in D.predecessors(q0)]): add_clause([-g1(q0, q1), g0(q1)] + [-g0(c0) for c0 in _uniqify_list(q2)] + [-g1(c0, c1) for c0, c1 in zip(D.predecessors(q0), q2)])
+        ((('q0', 'D.vertices()'), ('q1', 'B.right_neighbors(q0)'), ('q2', 'product(*[[c1 for c1 in B.right_neighbors(c0) if c1 != q1] for c0 in D.predecessors(q0)])')), (), 'add_clause', ('[-g1(q0, q1), g0(q1)] + [-g0(c0) for c0 in _uniqify_list(q2)] + [-g1(c0, c1) for c0, c1 in zip(D.predecessors(q0), q2)]',)),
         # for q0 in D.vertices() for q1 in B.right_neighbors(q0) if 0 == D.out_degree(q0): add_clause([-g0(q1), -g1(q0, q1)])
         ((('q0', 'D.vertices()'), ('q1', 'B.right_neighbors(q0)')), ('0 == D.out_degree(q0)',), 'add_clause', ('[-g0(q1), -g1(q0, q1)]',)),
     ],
@@ -231,8 +231,8 @@ SPECS = {
         ((), (), 'g1 = new_block', ('k', 'TseitinFormula({_it = networkx.random_regular_graph(d, v); _it = Graph.normalize(_it)}, [True]).number_of_variables() + nz')),
         # : g0 = new_block(k, 3)
         ((), (), 'g0 = new_block', ('k', '3')),
-        # for q0 in TseitinFormula({_it = networkx.random_regular_graph(d, v); _it = Graph.normalize(_it)}, [True]) for q1 in range(1, k + 1): add_clause([shift_edgelit(q1, c0) for c0 in q0] + g3(q1, None))
-        ((('q0', 'TseitinFormula({_it = networkx.random_regular_graph(d, v); _it = Graph.normalize(_it)}, [True])'), ('q1', 'range(1, k + 1)')), (), 'add_clause', ('[shift_edgelit(q1, c0) for c0 in q0] + g3(q1, None)',)),
+        # for q0 in TseitinFormula({_it = networkx.random_regular_graph(d, v); _it = Graph.normalize(_it)}, [True]) for q1 in range(1, k + 1): add_clause([_lit({_it = [None]; for q2 in range(1, k + 1): _it.append(F.new_graph_edges(_v0))}[q1][0] + _abs - 1, -{_it = [None]; for q2 in range(1, k + 1): _it.append(F.new_graph_edges(_v0))}[q1][0] - _abs + 1) for c0 in q0] + g3(q1, None))
+        ((('q0', 'TseitinFormula({_it = networkx.random_regular_graph(d, v); _it = Graph.normalize(_it)}, [True])'), ('q1', 'range(1, k + 1)')), (), 'add_clause', ('[_lit({_it = [None]; for q2 in range(1, k + 1): _it.append(F.new_graph_edges(_v0))}[q1][0] + _abs - 1, -{_it = [None]; for q2 in range(1, k + 1): _it.append(F.new_graph_edges(_v0))}[q1][0] - _abs + 1) for c0 in q0] + g3(q1, None)',)),
         # for q0 in range(1, k + 1) for (q1, q2) in combinations(g2(q0, None), 2) for q3 in g1(q0, None): add_clause([-q3, q1, q2])
         ((('q0', 'range(1, k + 1)'), ('(q1, q2)', 'combinations(g2(q0, None), 2)'), ('q3', 'g1(q0, None)')), (), 'add_clause', ('[-q3, q1, q2]',)),
         # for (q0, q1) in zip(p2 + p3, combinations(p1, len(p1) - 1)): k0: add_clause([p0] + q1 + {for (q2, q3) in zip(p2 + p3, combinations(p1, len(p1) - 1)): _it = _v0, if len(_it) + 1 == len(p2 + p3) and TseitinFormula(_v1, [True]).number_of_variables() < len(_it): del _it[TseitinFormula(_v1, [True]).number_of_variables()], F.add_clause([p0] + q3 + _it + [-q2]), _v0.append(q2)} + [-q0])
@@ -299,10 +299,10 @@ SPECS = {
         ((), (), 'force_injective_mapping', ('g0',)),
         #  if symbreak: force_nondecreasing_mapping(g0)
         ((), ('symbreak',), 'force_nondecreasing_mapping', ('g0',)),
-        # for ((q0, q1), (q2, q3)) in product(combinations(H.vertices(), 2), combinations(G.vertices(), 2)) if (induced or not G.has_edge(q2, q3)) and G.has_edge(q2, q3) != H.has_edge(q0, q1): add_clause([-g0[q0, q2], -g0[q1, q3]])
-        ((('((q0, q1), (q2, q3))', 'product(combinations(H.vertices(), 2), combinations(G.vertices(), 2))'),), ('(induced or not G.has_edge(q2, q3))', 'G.has_edge(q2, q3) != H.has_edge(q0, q1)'), 'add_clause', ('[-g0[q0, q2], -g0[q1, q3]]',)),
-        # for ((q0, q1), (q2, q3)) in product(combinations(H.vertices(), 2), combinations(G.vertices(), 2)) if (induced or not G.has_edge(q2, q3)) and G.has_edge(q2, q3) != H.has_edge(q0, q1) and not symbreak: add_clause([-g0[q0, q3], -g0[q1, q2]])
-        ((('((q0, q1), (q2, q3))', 'product(combinations(H.vertices(), 2), combinations(G.vertices(), 2))'),), ('(induced or not G.has_edge(q2, q3))', 'G.has_edge(q2, q3) != H.has_edge(q0, q1)', 'not symbreak'), 'add_clause', ('[-g0[q0, q3], -g0[q1, q2]]',)),
+        # for (q0, q1) in combinations(G.vertices(), 2) for (q2, q3) in combinations(H.vertices(), 2) if (induced or not G.has_edge(q0, q1)) and G.has_edge(q0, q1) != H.has_edge(q2, q3): add_clause([-g0[q2, q0], -g0[q3, q1]])
+        ((('(q0, q1)', 'combinations(G.vertices(), 2)'), ('(q2, q3)', 'combinations(H.vertices(), 2)')), ('(induced or not G.has_edge(q0, q1))', 'G.has_edge(q0, q1) != H.has_edge(q2, q3)'), 'add_clause', ('[-g0[q2, q0], -g0[q3, q1]]',)),
+        # for (q0, q1) in combinations(G.vertices(), 2) for (q2, q3) in combinations(H.vertices(), 2) if (induced or not G.has_edge(q0, q1)) and G.has_edge(q0, q1) != H.has_edge(q2, q3) and not symbreak: add_clause([-g0[q2, q1], -g0[q3, q0]])
+        ((('(q0, q1)', 'combinations(G.vertices(), 2)'), ('(q2, q3)', 'combinations(H.vertices(), 2)')), ('(induced or not G.has_edge(q0, q1))', 'G.has_edge(q0, q1) != H.has_edge(q2, q3)', 'not symbreak'), 'add_clause', ('[-g0[q2, q1], -g0[q3, q0]]',)),
     ],
     ('cnfgen.families.subgraph', 'CliqueFormula'): [
         # : g0 = new_mapping(k, G.order())
@@ -315,10 +315,10 @@ SPECS = {
         ((), (), 'force_injective_mapping', ('g0',)),
         #  if symbreak: force_nondecreasing_mapping(g0)
         ((), ('symbreak',), 'force_nondecreasing_mapping', ('g0',)),
-        # for ((q0, q1), (q2, q3)) in product(combinations(range(1, k + 1), 2), non_edges(G)): add_clause([-g0[q0, q2], -g0[q1, q3]])
-        ((('((q0, q1), (q2, q3))', 'product(combinations(range(1, k + 1), 2), non_edges(G))'),), (), 'add_clause', ('[-g0[q0, q2], -g0[q1, q3]]',)),
-        # for ((q0, q1), (q2, q3)) in product(combinations(range(1, k + 1), 2), non_edges(G)) if not symbreak: add_clause([-g0[q0, q3], -g0[q1, q2]])
-        ((('((q0, q1), (q2, q3))', 'product(combinations(range(1, k + 1), 2), non_edges(G))'),), ('not symbreak',), 'add_clause', ('[-g0[q0, q3], -g0[q1, q2]]',)),
+        # for (q0, q1) in combinations(range(1, k + 1), 2) for (q2, q3) in non_edges(G): add_clause([-g0[q0, q2], -g0[q1, q3]])
+        ((('(q0, q1)', 'combinations(range(1, k + 1), 2)'), ('(q2, q3)', 'non_edges(G)')), (), 'add_clause', ('[-g0[q0, q2], -g0[q1, q3]]',)),
+        # for (q0, q1) in combinations(range(1, k + 1), 2) for (q2, q3) in non_edges(G) if not symbreak: add_clause([-g0[q0, q3], -g0[q1, q2]])
+        ((('(q0, q1)', 'combinations(range(1, k + 1), 2)'), ('(q2, q3)', 'non_edges(G)')), ('not symbreak',), 'add_clause', ('[-g0[q0, q3], -g0[q1, q2]]',)),
     ],
     ('cnfgen.families.subgraph', 'BinaryCliqueFormula'): [
         # : g0 = new_binary_mapping(k, G.order())
@@ -329,10 +329,10 @@ SPECS = {
         ((), (), 'force_injective_mapping', ('g0',)),
         #  if symbreak: force_nondecreasing_mapping(g0)
         ((), ('symbreak',), 'force_nondecreasing_mapping', ('g0',)),
-        # for ((q0, q1), (q2, q3)) in product(combinations(range(1, k + 1), 2), ((c0 - 1, c1 - 1) for c0, c1 in non_edges(G))): add_clause(g0.forbid(q0, q2) + g0.forbid(q1, q3))
-        ((('((q0, q1), (q2, q3))', 'product(combinations(range(1, k + 1), 2), ((c0 - 1, c1 - 1) for c0, c1 in non_edges(G)))'),), (), 'add_clause', ('g0.forbid(q0, q2) + g0.forbid(q1, q3)',)),
-        # for ((q0, q1), (q2, q3)) in product(combinations(range(1, k + 1), 2), ((c0 - 1, c1 - 1) for c0, c1 in non_edges(G))) if not symbreak: add_clause(g0.forbid(q0, q3) + g0.forbid(q1, q2))
-        ((('((q0, q1), (q2, q3))', 'product(combinations(range(1, k + 1), 2), ((c0 - 1, c1 - 1) for c0, c1 in non_edges(G)))'),), ('not symbreak',), 'add_clause', ('g0.forbid(q0, q3) + g0.forbid(q1, q2)',)),
+        # for (q0, q1) in [(c0 - 1, c1 - 1) for c0, c1 in non_edges(G)] for (q2, q3) in combinations(range(1, k + 1), 2): add_clause(g0.forbid(q2, q0) + g0.forbid(q3, q1))
+        ((('(q0, q1)', '[(c0 - 1, c1 - 1) for c0, c1 in non_edges(G)]'), ('(q2, q3)', 'combinations(range(1, k + 1), 2)')), (), 'add_clause', ('g0.forbid(q2, q0) + g0.forbid(q3, q1)',)),
+        # for (q0, q1) in [(c0 - 1, c1 - 1) for c0, c1 in non_edges(G)] for (q2, q3) in combinations(range(1, k + 1), 2) if not symbreak: add_clause(g0.forbid(q2, q1) + g0.forbid(q3, q0))
+        ((('(q0, q1)', '[(c0 - 1, c1 - 1) for c0, c1 in non_edges(G)]'), ('(q2, q3)', 'combinations(range(1, k + 1), 2)')), ('not symbreak',), 'add_clause', ('g0.forbid(q2, q1) + g0.forbid(q3, q0)',)),
     ],
     ('cnfgen.families.subgraph', 'RamseyWitnessFormula'): [
         # : g1 = new_variable()
@@ -345,16 +345,16 @@ SPECS = {
         ((), (), 'force_functional_mapping', ('g0',)),
         # : force_injective_mapping(g0)
         ((), (), 'force_injective_mapping', ('g0',)),
-        # for ((q0, q1), (q2, q3)) in product(combinations(range(1, k + 1), 2), combinations(G.vertices(), 2)) if not G.has_edge(q2, q3): add_clause([-g0(q0, q2), -g0(q1, q3), -g1])
-        ((('((q0, q1), (q2, q3))', 'product(combinations(range(1, k + 1), 2), combinations(G.vertices(), 2))'),), ('not G.has_edge(q2, q3)',), 'add_clause', ('[-g0(q0, q2), -g0(q1, q3), -g1]',)),
-        # for ((q0, q1), (q2, q3)) in product(combinations(range(1, k + 1), 2), combinations(G.vertices(), 2)) if G.has_edge(q2, q3): add_clause([-g0(q0, q2), -g0(q1, q3), g1])
-        ((('((q0, q1), (q2, q3))', 'product(combinations(range(1, k + 1), 2), combinations(G.vertices(), 2))'),), ('G.has_edge(q2, q3)',), 'add_clause', ('[-g0(q0, q2), -g0(q1, q3), g1]',)),
-        # for ((q0, q1), (q2, q3)) in product(combinations(range(1, k + 1), 2), combinations(G.vertices(), 2)) if symbreak: add_clause([-g0(q0, q3), -g0(q1, q2)])
-        ((('((q0, q1), (q2, q3))', 'product(combinations(range(1, k + 1), 2), combinations(G.vertices(), 2))'),), ('symbreak',), 'add_clause', ('[-g0(q0, q3), -g0(q1, q2)]',)),
-        # for ((q0, q1), (q2, q3)) in product(combinations(range(1, k + 1), 2), combinations(G.vertices(), 2)) if not G.has_edge(q2, q3) and not symbreak: add_clause([-g0(q0, q3), -g0(q1, q2), -g1])
-        ((('((q0, q1), (q2, q3))', 'product(combinations(range(1, k + 1), 2), combinations(G.vertices(), 2))'),), ('not G.has_edge(q2, q3)', 'not symbreak'), 'add_clause', ('[-g0(q0, q3), -g0(q1, q2), -g1]',)),
-        # for ((q0, q1), (q2, q3)) in product(combinations(range(1, k + 1), 2), combinations(G.vertices(), 2)) if G.has_edge(q2, q3) and not symbreak: add_clause([-g0(q0, q3), -g0(q1, q2), g1])
-        ((('((q0, q1), (q2, q3))', 'product(combinations(range(1, k + 1), 2), combinations(G.vertices(), 2))'),), ('G.has_edge(q2, q3)', 'not symbreak'), 'add_clause', ('[-g0(q0, q3), -g0(q1, q2), g1]',)),
+        # for (q0, q1) in combinations(G.vertices(), 2) for (q2, q3) in combinations(range(1, k + 1), 2) if not G.has_edge(q0, q1): add_clause([-g0(q2, q0), -g0(q3, q1), -g1])
+        ((('(q0, q1)', 'combinations(G.vertices(), 2)'), ('(q2, q3)', 'combinations(range(1, k + 1), 2)')), ('not G.has_edge(q0, q1)',), 'add_clause', ('[-g0(q2, q0), -g0(q3, q1), -g1]',)),
+        # for (q0, q1) in combinations(G.vertices(), 2) for (q2, q3) in combinations(range(1, k + 1), 2) if G.has_edge(q0, q1): add_clause([-g0(q2, q0), -g0(q3, q1), g1])
+        ((('(q0, q1)', 'combinations(G.vertices(), 2)'), ('(q2, q3)', 'combinations(range(1, k + 1), 2)')), ('G.has_edge(q0, q1)',), 'add_clause', ('[-g0(q2, q0), -g0(q3, q1), g1]',)),
+        # for (q0, q1) in combinations(G.vertices(), 2) for (q2, q3) in combinations(range(1, k + 1), 2) if symbreak: add_clause([-g0(q2, q1), -g0(q3, q0)])
+        ((('(q0, q1)', 'combinations(G.vertices(), 2)'), ('(q2, q3)', 'combinations(range(1, k + 1), 2)')), ('symbreak',), 'add_clause', ('[-g0(q2, q1), -g0(q3, q0)]',)),
+        # for (q0, q1) in combinations(G.vertices(), 2) for (q2, q3) in combinations(range(1, k + 1), 2) if not G.has_edge(q0, q1) and not symbreak: add_clause([-g0(q2, q1), -g0(q3, q0), -g1])
+        ((('(q0, q1)', 'combinations(G.vertices(), 2)'), ('(q2, q3)', 'combinations(range(1, k + 1), 2)')), ('not G.has_edge(q0, q1)', 'not symbreak'), 'add_clause', ('[-g0(q2, q1), -g0(q3, q0), -g1]',)),
+        # for (q0, q1) in combinations(G.vertices(), 2) for (q2, q3) in combinations(range(1, k + 1), 2) if G.has_edge(q0, q1) and not symbreak: add_clause([-g0(q2, q1), -g0(q3, q0), g1])
+        ((('(q0, q1)', 'combinations(G.vertices(), 2)'), ('(q2, q3)', 'combinations(range(1, k + 1), 2)')), ('G.has_edge(q0, q1)', 'not symbreak'), 'add_clause', ('[-g0(q2, q1), -g0(q3, q0), g1]',)),
     ],
     ('cnfgen.families.subsetcardinality', 'SubsetCardinalityFormula'): [
         # : g0 = new_bipartite_edges(B)
@@ -381,11 +381,11 @@ SPECS = {
     ('cnfgen.families.ramsey', '_vdw_ap_generator'): [
         # for q0 in range(1, N + 1) if 1 == k: yield([q0])
         ((('q0', 'range(1, N + 1)'),), ('1 == k',), 'yield', ('[q0]',)),
-        # for q0 in range(1, (N - 1) // (k - 1) + 1) for q1 in range(1, N - q0 * k + q0 + 1) if 1 != k: yield([q1 + q0 * c0 for c0 in range(k)])
-        ((('q0', 'range(1, (N - 1) // (k - 1) + 1)'), ('q1', 'range(1, N - q0 * k + q0 + 1)')), ('1 != k',), 'yield', ('[q1 + q0 * c0 for c0 in range(k)]',)),
+        # for q0 in range(1, (N - 1) // (k - 1) + 1) for q1 in range(1, N - k * q0 + q0 + 1) if 1 != k: yield([c0 * q0 + q1 for c0 in range(k)])
+        ((('q0', 'range(1, (N - 1) // (k - 1) + 1)'), ('q1', 'range(1, N - k * q0 + q0 + 1)')), ('1 != k',), 'yield', ('[c0 * q0 + q1 for c0 in range(k)]',)),
     ],
     ('cnfgen.families.subgraph', 'non_edges'): [
-        # for q0 in range(1, G.order()) for q1 in range(q0 + 1, G.order() + 1) if not G.has_edge(q0, q1): yield((q0, q1))
-        ((('q0', 'range(1, G.order())'), ('q1', 'range(q0 + 1, G.order() + 1)')), ('not G.has_edge(q0, q1)',), 'yield', ('(q0, q1)',)),
+        # for (q0, q1) in combinations(G.vertices(), 2) if not G.has_edge(q0, q1): yield((q0, q1))
+        ((('(q0, q1)', 'combinations(G.vertices(), 2)'),), ('not G.has_edge(q0, q1)',), 'yield', ('(q0, q1)',)),
     ],
 }
